@@ -29,6 +29,11 @@ structure XOracles where
   format : String → String → String → String
   /-- `type(v).__name__` of the opaque value with the given tag -/
   typeOf : String → String
+  /-- the format test a formatted-string field runs on a str (`strptime` succeeds, IPv4 syntax, host name syntax) -/
+  fmtOk : String → String → Bool := fun _ _ => true
+  /-- `Decimal(s)` of a str: `none` = not modelled (NaN / Infinity), `some none` = not a number
+      (InvalidOperation, re-raised as ValueError), `some (some q)` = the finite value -/
+  decOfStr : String → Option (Option Q) := fun _ => none
 
 inductive XDecl where
   /-- any core declaration -/
@@ -42,6 +47,13 @@ inductive XDecl where
   /-- `DateField(date_format=fmt)` (`ty = "date"`, `ints = false`) / `DateTime(datetime_format=fmt)`
       (`ty = "datetime"`, `ints = true`: an int argument passes the type test) -/
   | temporal (ty fmt : String) (ints : Bool)
+  /-- `Enum[cls]` (serialized by NAME) over an enum class whose members compare equal to their values
+      (`mixin`, e.g. IntEnum): the constructor's `value in members` then also accepts the raw value -/
+  | enumName (cls : String) (members : List (String × PyVal)) (mixin : Bool)
+  /-- a formatted string: DateString / TimeString / IPV4 / HostName — a `str` that passes the field's
+      format test; `strict` = the deserializer only checks the type (String subclasses), else it also tries
+      `str(*list)` / `str(**dict)` on an array / object document (TimeString, a TypedField: outside the model) -/
+  | fmtStr (kind : String) (strict : Bool)
   /-- `AnyOf[X, NoneField]` -/
   | opt (x : XDecl)
   | seqOf (k : SeqKind) (x : XDecl)
@@ -61,12 +73,15 @@ def xOutside : ErrCls → Bool
   | .other n => n.startsWith "outside-model"
   | _ => false
 
-/-- `Decimal(value)`: numbers (bool included) convert exactly; None / dict raise TypeError; strings go
-    through Decimal's own parser and sequences through its (sign, digits, exponent) reading, which the
-    model does not carry -/
-def xConvDecimal (v : PyVal) : R Q :=
+/-- `Decimal(value)`: numbers (bool included) convert exactly; None / dict raise TypeError; a str goes
+    through Decimal's own parser (an oracle of the model); sequences through its (sign, digits, exponent)
+    reading, which the model does not carry -/
+def xConvDecimal (XO : XOracles) (v : PyVal) : R Q :=
   match v with
-  | .str _ => .error (.other "outside-model:decimal-str")
+  | .str s => (match XO.decOfStr s with
+      | none => .error (.other "outside-model:decimal-str")
+      | some none => .error .valueErr
+      | some (some q) => .ok q)
   | .list _ => .error (.other "outside-model:decimal-seq")
   | .tuple _ => .error (.other "outside-model:decimal-seq")
   | w => match w.asNum with
@@ -74,12 +89,12 @@ def xConvDecimal (v : PyVal) : R Q :=
     | none => .error .typeErr
 
 /-- `DecimalNumber.__set__`: convert, then the Number checks on the Decimal -/
-def sxDecimal (o : NumOpts) (v : PyVal) : R PyVal :=
-  bindE (xConvDecimal v) fun q => if numOk o q then .ok (.dec q) else .error .valueErr
+def sxDecimal (XO : XOracles) (o : NumOpts) (v : PyVal) : R PyVal :=
+  bindE (xConvDecimal XO v) fun q => if numOk o q then .ok (.dec q) else .error .valueErr
 
 /-- `DecimalNumber.deserialize`: convert only (the bounds are the constructor's business) -/
-def dDecimal (v : PyVal) : R PyVal :=
-  bindE (xConvDecimal v) fun q => .ok (.dec q)
+def dDecimal (XO : XOracles) (v : PyVal) : R PyVal :=
+  bindE (xConvDecimal XO v) fun q => .ok (.dec q)
 
 /-- `DecimalNumber.serialize`: `float(value)` -/
 def sDecimal (XO : XOracles) (v : PyVal) : R PyVal :=
@@ -101,13 +116,16 @@ def dEnumVal (cls : String) (ms : List (String × PyVal)) (v : PyVal) : R PyVal 
     | some n => .ok (.enumv cls n)
     | none => .error .valueErr
 
-/-- `Enum.__set__` (by value or not): a member, a member NAME (converted), or - for a mixin enum -
-    anything `==` to a member (kept as it is) -/
+/-- `Enum.__set__` (by value or not): a member, a member NAME (converted); for a mixin enum anything `==` to
+    a member is accepted too and kept as it is (marked outside the model, see below) -/
 def vEnumVal (cls : String) (ms : List (String × PyVal)) (mixin : Bool) (v : PyVal) : R PyVal :=
   match v with
   | .str n => if (ms.map (·.1)).contains n then .ok (.enumv cls n) else .error .valueErr
   | .enumv c n => if c == cls && (ms.map (·.1)).contains n then .ok v else .error .valueErr
-  | w => if mixin && ms.any (fun m => pyEq w m.2) then .ok w else .error .valueErr
+  | w =>
+    -- kept as it is by the real code; the raw value is `==` to the member (True == Level.LOW), which the
+    -- model's `pyEq` does not know (a set or a uniqueItems scan holding both would collapse): not modelled
+    if mixin && ms.any (fun m => pyEq w m.2) then .error (.other "outside-model:mixin-raw-value") else .error .valueErr
 
 /-- the member values `Enum.serialize` lets through: bool / str / int / float -/
 def xScalarJson : PyVal → Bool
@@ -121,6 +139,33 @@ def sEnumVal (ms : List (String × PyVal)) (v : PyVal) : R PyVal :=
       | some val => if xScalarJson val then .ok val else .error .typeErr
       | none => .error (.other "outside-model:foreign-member"))
   | _ => .error (.other "AttributeError")
+
+/-- `Enum.serialize` by name: `value.name` -/
+def sEnumName (v : PyVal) : R PyVal :=
+  match v with
+  | .enumv _ n => .ok (.str n)
+  | _ => .error (.other "AttributeError")
+
+/-- `Enum.deserialize` by name: a str must be a member name (converted); anything else goes through
+    `_validate` and is handed on as it is -/
+def dEnumName (cls : String) (ms : List (String × PyVal)) (mixin : Bool) (v : PyVal) : R PyVal :=
+  match v with
+  | .str n => if (ms.map (·.1)).contains n then .ok (.enumv cls n) else .error .valueErr
+  | w => dValidated (vEnumVal cls ms mixin w) w
+
+/-- formatted-string fields: TypeError unless a str, ValueError unless the format test passes -/
+def vFmtStr (XO : XOracles) (kind : String) (v : PyVal) : R PyVal :=
+  match v with
+  | .str s => if XO.fmtOk kind s then .ok v else .error .valueErr
+  | _ => .error .typeErr
+
+/-- their deserialization checks the type only (the format is the constructor's business) -/
+def dFmtStr (strict : Bool) (v : PyVal) : R PyVal :=
+  match v with
+  | .str _ => .ok v
+  | .list _ => if strict then .error .typeErr else .error (.other "outside-model:typedfield-from-list")
+  | .dict _ => if strict then .error .typeErr else .error (.other "outside-model:typedfield-from-dict")
+  | _ => .error .typeErr
 
 /-- a temporal value is `.opaque tag` whose Python type is `ty` (`isinstance(value, date)` …) -/
 def xIsKind (XO : XOracles) (ty tag : String) : Bool := XO.typeOf tag == ty
@@ -165,9 +210,11 @@ mutual
 /-- `field.__set__(fresh_instance, v)` -/
 def validateX (XO : XOracles) : XDecl → PyVal → R PyVal
   | .base f, v => validate XO.base f v
-  | .decimal o, v => sxDecimal o v
+  | .decimal o, v => sxDecimal XO o v
   | .enumVal cls ms mx, v => vEnumVal cls ms mx v
   | .temporal ty fmt ints, v => vTemporal XO ty fmt ints v
+  | .enumName cls ms mx, v => vEnumVal cls ms mx v
+  | .fmtStr kind _, v => vFmtStr XO kind v
   | .opt x, v => xOptOf (validateX XO x v) v
   | .seqOf k x, v => vSeq k {} (fun _ => true) (mapE (validateX XO x)) v
   | .setOf x, v => vSet false {} (mapE (validateX XO x)) v
@@ -210,6 +257,8 @@ def serX (XO : XOracles) : XDecl → PyVal → R PyVal
   | .decimal _, v => sDecimal XO v
   | .enumVal _ ms _, v => sEnumVal ms v
   | .temporal ty fmt _, v => sTemporal XO ty fmt v
+  | .enumName _ _ _, v => sEnumName v
+  | .fmtStr _ _, v => sScalar v
   | .opt x, v => if v.isNone then .ok .none else serX XO x v
   | .seqOf _ x, v => sSeq (mapE (serX XO x)) v
   | .setOf x, v => sSeq (mapE (serX XO x)) v
@@ -236,9 +285,11 @@ mutual
 /-- `deserialize_single_field(field, v, ignore_none=ign)` -/
 def deserX (XO : XOracles) (opts : DeserOpts) (ign : Bool) : XDecl → PyVal → R PyVal
   | .base f, v => deser XO.base opts ign f v
-  | .decimal _, v => if v.isNone && ign then .ok v else dDecimal v
+  | .decimal _, v => if v.isNone && ign then .ok v else dDecimal XO v
   | .enumVal cls ms _, v => if v.isNone && ign then .ok v else dEnumVal cls ms v
   | .temporal ty fmt ints, v => if v.isNone && ign then .ok v else dTemporal XO ty fmt ints v
+  | .enumName cls ms mx, v => if v.isNone && ign then .ok v else dEnumName cls ms mx v
+  | .fmtStr _ strict, v => if v.isNone && ign then .ok v else dFmtStr strict v
   | .opt x, v => if v.isNone && ign then .ok v else xOptOf (deserX XO opts false x v) v
   | .seqOf k x, v =>
     if v.isNone && ign then .ok v
@@ -249,7 +300,7 @@ def deserX (XO : XOracles) (opts : DeserOpts) (ign : Bool) : XDecl → PyVal →
   | .mapStr x, v =>
     if v.isNone && ign then .ok v
     else dMap (mapE (fun (kv : PyVal × PyVal) =>
-      bindE (deserX XO { opts with keepUndefined := true } false x kv.2) fun v' =>
+      bindE (deserX XO opts false x kv.2) fun v' =>
       bindE (dValidated (vString XO.base none none none kv.1) kv.1) fun k' => .ok (k', v'))) v
   | .tuplePos xs, v =>
     if v.isNone && ign then .ok v
